@@ -52,9 +52,9 @@ def replay_adversary(run, r, c):
             direction, d = log[r.randrange(0, len(log) - 650)]
             w.net.inject(direction, c.addr, d, "replay:old")
             run.c.inc("adv_replay_old")
-        elif x < 0.43:
+        elif x < 0.408:
             # message flood from both sides so that the 256-message window moves fast
-            state["burst"] = 6
+            state["burst"] = 5
         if state["burst"]:
             state["burst"] -= 1
             for _ in range(40):
